@@ -40,6 +40,7 @@ func checkC08(p *Prog, l *Ledger) {
 	checkGrammarEquivalence(p, l, pi, "C08/S3-grammar")
 	checkLookaheadRestrictions(p, l, pi)
 	checkSemanticFilters(p, l, pi)
+	checkParserMemory(p, l, "C08/S3-filters/parser-memory")
 	checkTargetTransparency(p, l, pi)
 	checkErrorOrigin(p, l, pi)
 	checkRunPipeline(p, l, "C08/S4-not-run")
@@ -472,6 +473,120 @@ func checkLookaheadRestrictions(p *Prog, l *Ledger, pi *parserInfo) {
 		l.Violate(rule+"/vacuity", "guarded calls", "", fmt.Sprintf("only %d lookahead-guarded calls found", n))
 	}
 }
+
+// checkParserMemory: between two constructs the parser remembers nothing but where it stands.  The structs that live as
+// long as the parser (Parser and what its fields hold) are written, after construction, only at the cursor position; no
+// table reachable from them is updated.  A parser that remembers names, nodes or counts from one construct to the next
+// accepts or builds a construct differently depending on code that stands elsewhere in the text — code that may never
+// run.
+func checkParserMemory(p *Prog, l *Ledger, rule string) {
+	cp := parserCursor(p)
+	pk := p.Pkg("parser")
+	if cp == nil || pk == nil {
+		l.Undecide(rule, "Parser#state", "", "cannot tell where the parser keeps its position")
+		return
+	}
+	persistent := map[string]bool{"parser.Parser": true}
+	var grow func(t types.Type, depth int)
+	grow = func(t types.Type, depth int) {
+		st, ok := derefT(t).Underlying().(*types.Struct)
+		if !ok || depth > 3 {
+			return
+		}
+		for i := 0; i < st.NumFields(); i++ {
+			ft := derefT(st.Field(i).Type())
+			if n, ok := ft.(*types.Named); ok && n.Obj().Pkg() != nil && n.Obj().Pkg().Name() == "parser" {
+				if _, isStruct := n.Underlying().(*types.Struct); isStruct && !persistent[typeStr(n)] {
+					persistent[typeStr(n)] = true
+					grow(n, depth+1)
+				}
+			}
+		}
+	}
+	if pt, _ := pk.Members["Parser"].(*ssa.Type); pt != nil {
+		grow(pt.Type(), 0)
+	}
+	var fromPersistent func(v ssa.Value, depth int) string
+	fromPersistent = func(v ssa.Value, depth int) string {
+		if depth > 6 {
+			return ""
+		}
+		switch x := v.(type) {
+		case *ssa.UnOp:
+			return fromPersistent(x.X, depth+1)
+		case *ssa.IndexAddr:
+			return fromPersistent(x.X, depth+1)
+		case *ssa.Index:
+			return fromPersistent(x.X, depth+1)
+		case *ssa.Lookup:
+			return fromPersistent(x.X, depth+1)
+		case *ssa.Slice:
+			return fromPersistent(x.X, depth+1)
+		case *ssa.Extract:
+			return fromPersistent(x.Tuple, depth+1)
+		case *ssa.FieldAddr:
+			if tn, f := structKey(x.X.Type(), x.Field); persistent[tn] {
+				return tn + "." + f
+			}
+			return fromPersistent(x.X, depth+1)
+		case *ssa.Field:
+			if tn, f := structKey(x.X.Type(), x.Field); persistent[tn] {
+				return tn + "." + f
+			}
+		}
+		return ""
+	}
+	n := 0
+	bad := map[string]string{}
+	for _, fn := range p.ModuleFuncs() {
+		if fnPkgName(fn) != "parser" {
+			continue
+		}
+		fk := p.FuncKey(fn)
+		instrsOf(fn, func(in ssa.Instruction) {
+			switch x := in.(type) {
+			case *ssa.Store:
+				fa, ok := x.Addr.(*ssa.FieldAddr)
+				if !ok {
+					return
+				}
+				tn, f := structKey(fa.X.Type(), fa.Field)
+				if !persistent[tn] {
+					return
+				}
+				n++
+				if _, fresh := embRoot(fa.X).(*ssa.Alloc); fresh {
+					return // the literal of a constructor
+				}
+				if tn == cp.posType && f == cp.posField {
+					return
+				}
+				bad[fk+"#store("+tn+"."+f+")"] = p.InstrPos(in)
+			case *ssa.MapUpdate:
+				if src := fromPersistent(x.Map, 0); src != "" {
+					n++
+					bad[fk+"#update("+src+")"] = p.InstrPos(in)
+				}
+			}
+		})
+	}
+	var keys []string
+	for k := range bad {
+		keys = append(keys, k)
+	}
+	sort.Strings(keys)
+	for _, k := range keys {
+		l.Violate(rule, k, bad[k], "the parser changes state of its own other than its position while parsing: what it does with one construct comes to depend on the constructs parsed before it (names, nodes or counts remembered across the text — including text that never runs)")
+	}
+	if len(bad) == 0 {
+		l.Discharge(rule, "Parser#state", "", fmt.Sprintf("after construction the parser writes nothing but its position (%d writes to parser-lifetime structs looked at: %s)", n, strings.Join(sortedKeysOf(persistentSet(persistent)), ", ")), true)
+	}
+	if n < 2 {
+		l.Violate(rule+"/vacuity", "Parser#state", "", fmt.Sprintf("only %d writes to parser state found", n))
+	}
+}
+
+func persistentSet(m map[string]bool) map[string]bool { return m }
 
 // ---- semantic filters -----------------------------------------------------------------------------------------
 
